@@ -642,6 +642,7 @@ fn spawn_async_ao_list_in_task'''),
         ('here-state-put-back-before-the-construct-is-read', 'brush-parser/src/tokenizer.rs', [("                            let outer_here_tags =\n                                std::mem::take(&mut self.cross_state.current_here_tags);\n", "                            let outer_here_tags =\n                                std::mem::take(&mut self.cross_state.current_here_tags);\n                            self.cross_state.here_state = outer_here_state;\n"), ("                            self.cross_state.here_state = outer_here_state;\n                            self.cross_state.current_here_tags = outer_here_tags;", "                            self.cross_state.current_here_tags = outer_here_tags;")]),
     ],
     'U27b': [
+        ('here-docs-state-kept-after-the-last-pending-body', 'brush-parser/src/tokenizer.rs', "                if cross_token_state.current_here_tags.is_empty() {\n                    cross_token_state.here_state = HereState::None;", "                if !cross_token_state.current_here_tags.is_empty() {\n                    cross_token_state.here_state = HereState::None;"),
         ('character-after-the-terminator-unwrapped', 'brush-parser/src/tokenizer.rs', "                    state.append_char(\n                        self.next_char()?\n                            .ok_or(TokenizerError::UnterminatedExpansion)?,\n                    );", "                    state.append_char(self.next_char()?.unwrap());"),
         ('closing-character-of-the-construct-unwrapped', 'brush-parser/src/tokenizer.rs', "        state.append_char(\n            self.next_char()?\n                .ok_or(TokenizerError::UnterminatedExpansion)?,\n        );\n        Ok(())", "        state.append_char(self.next_char()?.unwrap());\n        Ok(())"),
         ('end-tag-match-attempted-on-an-empty-token-before-the-body', 'brush-parser/src/tokenizer.rs', "                    if (matches!(self.cross_state.here_state, HereState::InHereDocs)\n                        || state.started_token())\n                        && self.remove_here_end_tag(&mut state, &mut result, false)?\n                    {", "                    if self.remove_here_end_tag(&mut state, &mut result, false)? {"),
